@@ -540,6 +540,23 @@ fn main() {
                             break;
                         }
                     }
+                    // the LAST instance on the wire must still be valid when the run ends (an instance that is never
+                    // superseded leaves no pair to judge); 1.5 s of slack keeps this apart from mere lateness
+                    if let Some(last) = insts.last() {
+                        let exp = last.xml.as_ref().and_then(|x| x.split("Expires=\"").nth(1)).and_then(|s| s.split('"').next()).and_then(|s| s.parse::<u64>().ok());
+                        let t_end = util::at(opts.instants.last().copied().unwrap_or(0));
+                        if let Some(e) = exp {
+                            let expiry = SystemTime::UNIX_EPOCH + Duration::from_secs(e - NTP_UNIX_OFFSET);
+                            if t_end > expiry + Duration::from_millis(1500) {
+                                cr.violations.push(Violation::new("never_superseded", format!(
+                                    "fdt_duration {} s: instance {} (the last one emitted) expired at NTP {} but no successor was emitted although the sender was polled every 50 ms for {} ms more",
+                                    dur, last.id, e, t_end.duration_since(expiry).unwrap().as_millis()))
+                                    .with("duration_class", if dur <= 10 { "le10" } else if dur <= 30 { "le30" } else { "gt30" })
+                                    .with("full_fdt", spec.full_fdt)
+                                    .witness(json!({"sender": spec.json(), "offset_ms": offset_ms, "instances": insts.iter().map(|x| json!({"id": x.id, "t_first_us": util::since_t0_us(x.t_first) as i64})).collect::<Vec<_>>()})));
+                            }
+                        }
+                    }
                     cr.count("supersession_pairs", pairs);
                     if pairs > 0 {
                         cr.shape = Some(util::fnv(&format!("sup|{}|{}", dur, variant)));
